@@ -287,6 +287,30 @@ pub fn run(tier: &str, seed: i64) -> Outcome {
                 }
                 Err(e) => acc.violation(format!("show-died|{}|{}", p.fen4(false), m.uci()), e, json::obj(vec![("kind", json::s("c20-show")), ("fen", json::s(p.fen6(false))), ("move", json::s(m.uci()))])),
             }
+            // a refused move after a played one: if a game is still shown, it is the game after `m` alone - the
+            // record must not contain the refused move. Refused strings: geometrically valid moves that expose the
+            // king (pinned piece, king into attack, check not answered) and a null string
+            let legal_next: Vec<String> = succ.legal().iter().map(|x| x.uci()).collect();
+            let mut bads: Vec<String> = succ.pseudo_legal().iter().map(|x| x.uci()).filter(|t| !legal_next.contains(t)).take(2).collect();
+            bads.push("a1a1".into());
+            for bad in bads {
+                acc.evaluations += 1;
+                let rj = json::obj(vec![("kind", json::s("c20-show")), ("fen", json::s(p.fen6(false))), ("move", json::s(format!("{} {}", m.uci(), bad)))]);
+                match uci_seq(vec![format!("position fen {} moves {} {}", p.fen6(false), m.uci(), bad), "show".into()]) {
+                    Ok(t) => {
+                        let Some(entry) = t.last() else { continue };
+                        if matches!(parse_show(entry), Shown::Game { .. }) {
+                            acc.count("`show` after a refused move: game still shown, record checked");
+                            if let Err(e) = check_display(entry, keys().hash(&succ), &format!("{} 0 1", succ.fen4(false)), &succ, &[m]) {
+                                acc.violation(format!("show-refused|{}|{}|{}", p.fen4(false), m.uci(), bad), format!("`show` after position fen {} moves {} {} (the last move is refused): {}", p.fen6(false), m.uci(), bad, e), rj);
+                            }
+                        } else {
+                            acc.count("`show` after a refused move: no game shown");
+                        }
+                    }
+                    Err(e) => acc.violation(format!("show-refused-died|{}|{}|{}", p.fen4(false), m.uci(), bad), e, rj),
+                }
+            }
         }
     });
     acc.merge(acc_show);
